@@ -19,11 +19,18 @@ Two code variants are modelled (`Variant`):
   `pubUnlocked = true`: it releases the mutex first (repaired).
 * `oneSnapshot = false`: `updateBest` reads every head twice (original); `true`: once (repaired).
 * `notifySwitch = false`: a switch of the best connection notifies nobody (original); `true`: repaired.
+* `timerOnce = false`: `WaitMasterchainSeqno` evaluates `time.After(timeout)` inside its loop, so every received head
+  below the target starts the timeout again (original); `true`: one timer armed when the wait begins (repaired).
+
+The timeout of a waiter is STATE (round 4): `timer = armed` from the moment the waiter enters its select; the
+environment action `wDeadline` (the timeout has elapsed) makes it `due`; only then can the waiter's select take the
+timer case (`wFire`). Context cancellation (`wCancel`) is an environment action enabled whenever the waiter is in its
+select.
 
 `updateBest` is modelled read by read (round 2; no abstraction of the choice): under the write lock the first loop
 reads `MasterHead()` of every member in order (each read needs that member's mutex) — `ubRead`; the selection loop
-reads `IsOK()` / `AverageRoundTrip()` of every member and, in the original code (`oneSnapshot = false`),
-`MasterHead()` AGAIN — `ubSel`; `ubSet` then stores exactly `PoolSelect.selectWith` applied to the maximum of the
+reads `IsOK()` of every member and, in the original code (`oneSnapshot = false`), `MasterHead()` and
+`AverageRoundTrip()` AGAIN — `ubSel` (the repaired code reads the round-trip times in the first loop too); `ubSet` then stores exactly `PoolSelect.selectWith` applied to the maximum of the
 first loop and to what the selection loop read. SetMasterHead callers may move heads between any two reads. With
 `notifySwitch` a change of the choice offers the new member's (snapshot) head to every waiter, still under the write
 lock. Liveness / round-trip time of a member are environment-controlled (`setAlive`, `setRtt`). Timer expiry and
@@ -38,12 +45,13 @@ structure Variant where
   pubUnlocked : Bool
   oneSnapshot : Bool := true
   notifySwitch : Bool := true
+  timerOnce : Bool := true
   deriving DecidableEq, Repr
 
 /-- the code as originally written -/
-def orig : Variant := ⟨false, false, false, false⟩
+def orig : Variant := ⟨false, false, false, false, false⟩
 /-- the repaired code -/
-def fixed : Variant := ⟨true, true, true, true⟩
+def fixed : Variant := ⟨true, true, true, true, true⟩
 
 /-- capacity of `masterHeadUpdatedCh` -/
 def updCap : Nat := 10
@@ -62,11 +70,12 @@ inductive RunPc where
   | idle
   /-- tick received: at `p.mu.Lock()` of updateBest -/
   | ubWant
-  /-- first loop of updateBest: holding the write lock, about to call `conns[i].MasterHead()`; `seqs` = heads read -/
-  | ubRead (i : Nat) (seqs : List (BitVec 32))
+  /-- first loop of updateBest: holding the write lock, about to call `conns[i].MasterHead()` (and, repaired code,
+  `AverageRoundTrip()`); `seqs` / `rts` = heads / round-trip times read so far -/
+  | ubRead (i : Nat) (seqs : List (BitVec 32)) (rts : List Int)
   /-- selection loop: about to look at member `i` (IsOK, AverageRoundTrip and — original code — MasterHead again);
   `acc` = what the loop has read so far; `i = number of members`: about to store -/
-  | ubSel (i : Nat) (seqs : List (BitVec 32)) (acc : List Conn)
+  | ubSel (i : Nat) (seqs : List (BitVec 32)) (rts : List Int) (acc : List Conn)
   /-- update `(c, h)` received: at `p.mu.RLock()` of notifySubscribers -/
   | nWant (c h : Nat)
   /-- holding the read lock, at the `bestConn == nil` / `update.Conn.ID() != p.bestConn.ID()` test -/
@@ -83,6 +92,13 @@ inductive WRes where
   | ok
   | err
   | panic
+  deriving DecidableEq, Repr, Inhabited
+
+/-- the timeout of a waiter: not started, running, elapsed (its channel is ready) -/
+inductive Timer where
+  | off
+  | armed
+  | due
   deriving DecidableEq, Repr, Inhabited
 
 /-- program counter of a `WaitMasterchainSeqno` caller -/
@@ -107,7 +123,8 @@ structure Waiter where
   wid : Nat := 0
   /-- ghost: every head received from the channel, newest first -/
   received : List Nat := []
-  /-- ghost: timer expired or context cancelled -/
+  timer : Timer := .off
+  /-- ghost: the select took the timer case or the context was cancelled -/
   fired : Bool := false
   /-- ghost: the largest head notifySubscribers has offered to this waiter's channel -/
   offered : Option Nat := none
@@ -170,7 +187,9 @@ inductive Action where
   | wLock (i : Nat)
   | wSub (i : Nat)
   | wRecv (i : Nat)
+  | wDeadline (i : Nat)
   | wFire (i : Nat)
+  | wCancel (i : Nat)
   | wUnsub (i : Nat)
   | sLock (j : Nat)
   | sSend (j : Nat)
@@ -178,10 +197,12 @@ inductive Action where
   | setRtt (c : Nat) (r : Int)
   deriving DecidableEq, Repr, Inhabited
 
-/-- environment actions: the ticker, a waiter's timer / context, liveness and round-trip time of a member -/
+/-- environment actions: the ticker, a waiter's timeout elapsing / its context being cancelled, liveness and
+round-trip time of a member. (`wFire`, the select taking the ready timer case, is the waiter's own step.) -/
 def Action.isEnv : Action → Bool
   | .tick => true
-  | .wFire _ => true
+  | .wDeadline _ => true
+  | .wCancel _ => true
   | .setAlive _ _ => true
   | .setRtt _ _ => true
   | _ => false
@@ -194,28 +215,29 @@ def connFree (s : State) (c : Nat) : Bool := (s.connLock.getD c none).isNone
 def step (v : Variant) (s : State) : Action → Option State
   -- ---------------------------------------------------------------- Run: updateBest
   | .tick => if s.run = .idle then some { s with run := .ubWant } else none
-  | .ubLock => if s.run = .ubWant ∧ s.rw = .free then some { s with run := .ubRead 0 [], rw := .wrRun } else none
+  | .ubLock => if s.run = .ubWant ∧ s.rw = .free then some { s with run := .ubRead 0 [] [], rw := .wrRun } else none
   | .ubRead => match s.run with
-    | .ubRead i seqs =>
+    | .ubRead i seqs rts =>
       if i < s.heads.length then
-        if connFree s i then some { s with run := .ubRead (i + 1) (seqs ++ [BitVec.ofNat 32 (s.heads.getD i 0)]) }
+        if connFree s i then
+          some { s with run := .ubRead (i + 1) (seqs ++ [BitVec.ofNat 32 (s.heads.getD i 0)]) (rts ++ [s.rtt.getD i 0]) }
         else none
-      else some { s with run := .ubSel 0 seqs [] }
+      else some { s with run := .ubSel 0 seqs rts [] }
     | _ => none
   | .ubSel => match s.run with
-    | .ubSel i seqs acc =>
+    | .ubSel i seqs rts acc =>
       if i < s.heads.length then
         if v.oneSnapshot then
-          some { s with run := .ubSel (i + 1) seqs (acc ++ [Conn.mk i (s.alive.getD i false)
-            (seqs.getD i 0) (s.rtt.getD i 0)]) }
+          some { s with run := .ubSel (i + 1) seqs rts (acc ++ [Conn.mk i (s.alive.getD i false)
+            (seqs.getD i 0) (rts.getD i 0)]) }
         else if connFree s i then
-          some { s with run := .ubSel (i + 1) seqs (acc ++ [Conn.mk i (s.alive.getD i false)
+          some { s with run := .ubSel (i + 1) seqs rts (acc ++ [Conn.mk i (s.alive.getD i false)
             (BitVec.ofNat 32 (s.heads.getD i 0)) (s.rtt.getD i 0)]) }
         else none
       else none
     | _ => none
   | .ubSet => match s.run with
-    | .ubSel i seqs acc =>
+    | .ubSel i seqs _ acc =>
       if s.heads.length ≤ i then
         match selectWith false s.strategy (maxOfSeqs seqs) acc with
         | none => some { s with run := .idle, rw := .free }
@@ -287,10 +309,10 @@ def step (v : Variant) (s : State) : Action → Option State
           if connFree s c then
             let hd := s.heads.getD c 0
             if x.target ≤ hd then
-              some { (s.setW i { x with pc := .sel, buf := [hd], wid := 0 }) with
+              some { (s.setW i { x with pc := .sel, buf := [hd], wid := 0, timer := .armed }) with
                 rw := .free, log := s.log ++ [(i, c, hd)] }
             else
-              some { (s.setW i { x with pc := .sel, wid := s.nextId + 1 }) with
+              some { (s.setW i { x with pc := .sel, wid := s.nextId + 1, timer := .armed }) with
                 rw := .free, nextId := s.nextId + 1, waitList := s.waitList ++ [(s.nextId + 1, i)] }
           else none
       else none
@@ -301,11 +323,19 @@ def step (v : Variant) (s : State) : Action → Option State
         match x.buf with
         | h :: rest =>
           some (s.setW i { x with buf := rest, received := h :: x.received,
-                                  pc := if x.target ≤ h then .leave .ok else .sel })
+                                  pc := if x.target ≤ h then .leave .ok else .sel,
+                                  timer := if v.timerOnce then x.timer else .armed })
         | [] => none
       else none
     | none => none
+  | .wDeadline i => match s.waiters[i]? with
+    | some x => if x.pc = .sel ∧ x.timer = .armed then some (s.setW i { x with timer := .due }) else none
+    | none => none
   | .wFire i => match s.waiters[i]? with
+    | some x =>
+      if x.pc = .sel ∧ x.timer = .due then some (s.setW i { x with pc := .leave .err, fired := true }) else none
+    | none => none
+  | .wCancel i => match s.waiters[i]? with
     | some x => if x.pc = .sel then some (s.setW i { x with pc := .leave .err, fired := true }) else none
     | none => none
   | .wUnsub i => match s.waiters[i]? with
@@ -361,17 +391,18 @@ def mkInit (heads : List Nat) (best : Option Nat) (targets : List Nat) (pubs : L
 /-- candidate actions of a state (every action that can possibly be enabled is among them, `step_some_mem`) -/
 def allActions (s : State) : List Action :=
   [.tick, .ubLock, .ubRead, .ubSel, .ubSet, .recv, .nRLock, .nCheck, .nPut, .nDone]
-  ++ (List.range s.waiters.length).flatMap (fun i => [.nSend i, .nDrain i, .wLock i, .wSub i, .wRecv i, .wFire i, .wUnsub i])
+  ++ (List.range s.waiters.length).flatMap (fun i => [.nSend i, .nDrain i, .wLock i, .wSub i, .wRecv i, .wDeadline i, .wFire i, .wCancel i, .wUnsub i])
   ++ (List.range s.setters.length).flatMap (fun j => [.sLock j, .sSend j])
 
 def enabledActions (v : Variant) (s : State) : List Action :=
   (allActions s).filter (fun a => (step v s a).isSome)
 
-/-- every thread is finished or parked in its select on an empty channel: only the environment can make anything
-happen (a ticker tick, a timer, a cancellation, a new head from the network) -/
+/-- every thread is finished or parked in its select on an empty channel with its timeout not yet elapsed: only the
+environment can make anything happen (a ticker tick, a timeout elapsing, a cancellation, a new head) -/
 def quiescent (s : State) : Bool :=
   s.run == .idle && s.upd.isEmpty &&
-  s.waiters.all (fun w => (w.pc == .sel && w.buf.isEmpty) || match w.pc with | .done _ => true | _ => false) &&
+  s.waiters.all (fun w => (w.pc == .sel && w.buf.isEmpty && w.timer != .due) ||
+    match w.pc with | .done _ => true | _ => false) &&
   s.setters.all (fun x => x.pc == .done)
 
 /-- nothing at all can happen (not even an environment action) although some thread has not finished -/
